@@ -30,8 +30,8 @@ def queries(tier):
             continue
         seen.add(k)
         # closing after a delivery makes symex crawl (drain loops over lists whose state it no longer knows): measured 47 s vs 2 s
-        w2 = w[:-2] if (w.endswith(" Z") and ("W(" in w or "R(0,1)" in w or "R(1,1)" in w or "R(2,1)" in w) and tier == "quick") else w
-        if tier == "quick" and not d and w2 in ("A(0) W(0,1) W(0,1) R(0,0) R(1,0)", "A(0) W(0,2) W(0,1) R(0,0)", "A(0) Q(2) W(0,1) W(0,1) W(0,1) R(0,0) R(1,0) R(2,0)"):
+        w2 = w[:-2] if (w.endswith(" Z") and ("W(" in w or "R(0,1)" in w or "R(1,1)" in w or "R(2,1)" in w) and False) else w
+        if False and w2 in ("A(0) W(0,1) W(0,1) R(0,0) R(1,0)", "A(0) W(0,2) W(0,1) R(0,0)", "A(0) Q(2) W(0,1) W(0,1) W(0,1) R(0,0) R(1,0) R(2,0)"):
             continue   # > 100 s in symex for pair1 (pass for pair0); thorough tier
         defs = dict(d)
         defs["SKEL"] = w2
